@@ -179,7 +179,7 @@ func verifAnnotate(src string, mode Mode) (*parser.Program, *Cover, *parseutil.F
 
 func VerifC18Partition() {
 	verifSimpleStmt = ""
-	body, count := verifBuildStmts(verifIntRange(1, verifBound(2, 3)), verifBound(1, 1), []int{0, 1, 2, 3, 4, 5, 6, 7, 8, 9, 10}) // nesting depth 2 did not finish within the thorough time limit
+	body, count := verifBuildStmts(verifIntRange(1, verifBound(2, 2)), verifBound(1, 1), []int{0, 1, 2, 3, 4, 5, 6, 7, 8, 9, 10}) // three statements or nesting depth 2 did not finish within the thorough time limit
 	src := "{\n" + body + "}\n"
 	prog, cov, _, err := verifAnnotate(src, []Mode{ModeSet, ModeCount}[verifIntRange(0, 1)])
 	verifAssert(err == nil, "an annotated program failed to parse, resolve or compile")
